@@ -69,6 +69,14 @@ def conv_case(geo, rng, res):
         return res.violation(f'get_g_factor differs from the output-gradient second moment (max dev {(G - Gexp).abs().max().item()})', case)
     if tuple(got.shape) != (h.g_factor_shape[0], h.a_factor_shape[0]):
         return res.violation(f'combined gradient shape {tuple(got.shape)} != (G rows, A rows)', case)
+    # the SAME helper on a later batch of another size (batch and resolution may change from call to call)
+    H2, W2, B2 = H + rng.randint(0, 3), W + rng.randint(0, 3), rng.randint(1, 4)
+    x2 = torch.randn(B2, ci, H2, W2, generator=g, dtype=torch.float64)
+    go2 = torch.randn(conv(x2).shape, generator=g, dtype=torch.float64)
+    res.count('second_call_checks')
+    A2, G2 = h.get_a_factor(x2.clone()), h.get_g_factor(go2.clone())
+    if A2.shape != A.shape or not torch.allclose(A2, rm.moment_conv_in(x2, conv, bias), rtol=1e-9, atol=1e-12) or not torch.allclose(G2, rm.moment_conv_out(go2), rtol=1e-9, atol=1e-12):
+        return res.violation(f'second call of the same helper on a batch of shape {tuple(x2.shape)} (first was {tuple(x.shape)}): factors differ from the second moments of that batch', case)
     if not setget(h, conv, g, res, case):
         return
     if kh * kw > 1 or ci > 1:
@@ -141,6 +149,13 @@ def linear_case(rng, res):
         return res.violation(f'factor shapes {tuple(A.shape)},{tuple(G.shape)} != advertised {h.a_factor_shape},{h.g_factor_shape}', case)
     if not torch.allclose(A, rm.moment_linear_in(x, bias), rtol=1e-9, atol=1e-12) or not torch.allclose(G, rm.moment_linear_out(go), rtol=1e-9, atol=1e-12):
         return res.violation('linear factors differ from the bias-augmented input / output-gradient second moments', case)
+    lead2 = [rng.randint(1, 4) for _ in range(rng.choice([1, 2, 3]))]
+    x2 = torch.randn(*lead2, fi, generator=g, dtype=torch.float64)
+    go2 = torch.randn(*lead2, fo, generator=g, dtype=torch.float64)
+    res.count('second_call_checks')
+    if not torch.allclose(h.get_a_factor(x2.clone()), rm.moment_linear_in(x2, bias), rtol=1e-9, atol=1e-12) or \
+            not torch.allclose(h.get_g_factor(go2.clone()), rm.moment_linear_out(go2), rtol=1e-9, atol=1e-12):
+        return res.violation(f'second call of the same helper with leading dimensions {lead2} (first {lead}): factors differ from the second moments of that batch', case)
     if not setget(h, lin, g, res, case):
         return
     if len(lead) > 1 or bias:
